@@ -32,6 +32,10 @@ type OpRec struct {
 	B    int    `json:"b"`  // block number; -1 = a hash that was never added
 	Flag bool   `json:"flag,omitempty"`
 	Opts *Opts  `json:"opts,omitempty"`
+	// poke (closed store only): overwrite bytes of the index file (File = "idx") or of data file number B (File = "dat")
+	File string `json:"file,omitempty"`
+	Pos  int64  `json:"pos,omitempty"`
+	Hex  string `json:"hex,omitempty"`
 }
 
 type History struct {
